@@ -326,6 +326,18 @@ func runC13(c *Cfg) {
 		c.Direct(got == w.want, w.class, fmt.Sprintf("witness of %s: schema %s instance %s: importer says %s, the specification says %s", w.theorem, w.schema, w.inst, got, w.want),
 			map[string]string{"schema": w.schema, "instance": w.inst})
 	}
+	for _, w := range c13Observations {
+		ctx := cuecontext.New()
+		s, _ := parseJV(w.schema)
+		cs := &c13Case{schema: s, schemaTxt: w.schema, instTxt: []string{w.inst}}
+		c13Eval(ctx, cs, false)
+		got := "import-error"
+		if cs.importErr == "" && len(cs.verdicts) == 1 {
+			got = cs.verdicts[0]
+		}
+		// outside the property's subset: counted, never a finding / failing input
+		c.Count("observation:" + w.class + ":importer=" + got + ":spec=" + w.want)
+	}
 }
 
 func c13Emit(c *Cfg, cs *c13Case) {
